@@ -128,9 +128,26 @@ class Ref:
                 val[outs[0]] = val[ins[0]][idx]
             elif k == "CONCATENATION":
                 qo = self.quant(outs[0])
-                if any(self.quant(i) != qo for i in ins) or o.get("FusedActivationFunction", 0):
-                    raise Unsupported("requantising concatenation")
-                val[outs[0]] = np.concatenate([val[i] for i in ins], axis=o.get("Axis", 0))
+                if o.get("FusedActivationFunction", 0):
+                    raise Unsupported("concatenation with fused activation")
+                parts = []
+                for i in ins:
+                    if self.quant(i) == qo:
+                        parts.append(val[i])
+                        continue
+                    if self.tens(outs[0])["type"] != "uint8":
+                        raise Unsupported("requantising concatenation (the int8 reference kernel rejects it)")
+                    # reference_ops::ConcatenationWithScaling (uint8 only), float32 arithmetic
+                    (sci,), (zpi,) = [x[:1] for x in self.quant(i)]
+                    (sco,), (zpo,) = [x[:1] for x in qo]
+                    inv = np.float32(1.0) / np.float32(sco)
+                    sc = np.float32(sci) * inv
+                    bias = np.float32(-int(zpi)) * sc
+                    v = val[i].astype(np.float32) * sc + bias
+                    r = np.where(v >= 0, np.floor(v + np.float32(0.5)), np.ceil(v - np.float32(0.5))).astype(np.int64) + int(zpo)
+                    parts.append(np.clip(r, 0, 255))
+                    self.requant_concat = True       # fixed-point on the NPU: one step allowed
+                val[outs[0]] = np.concatenate(parts, axis=o.get("Axis", 0))
             elif k == "PAD":
                 pads = self.const(ins[1])
                 if pads is None or self.quant(ins[0]) != self.quant(outs[0]):
@@ -139,6 +156,8 @@ class Ref:
                 val[outs[0]] = np.pad(val[ins[0]], [(int(a), int(b2)) for a, b2 in pads.reshape(-1, 2)], constant_values=zp[0])
             elif k == "RESHAPE":
                 val[outs[0]] = val[ins[0]].reshape(self.tens(outs[0])["shape"])
+            elif k in ("ADD", "SUB", "MUL", "MINIMUM", "MAXIMUM"):
+                val[outs[0]] = self.elementwise(k, ins, outs[0], o, val)
             elif k in ("RELU", "RELU6"):
                 t = self.tens(outs[0])
                 (sc,), (zp,) = [x[:1] for x in self.quant(outs[0])]
@@ -150,6 +169,47 @@ class Ref:
             else:
                 raise Unsupported(k)
         return {i: val[i] for i in self.sg["outputs"]}
+
+    def elementwise(self, k, ins, out_idx, o, val):
+        """reference_integer_ops / reference_ops Add, Sub, Mul (8-bit), Minimum, Maximum; add.cc / sub.cc / mul.cc Prepare"""
+        t = self.tens(out_idx)
+        ty = t["type"]
+        if ty not in ("int8", "uint8") or any(self.tens(i)["type"] != ty for i in ins):
+            raise Unsupported("elementwise type %s" % ty)
+        (s1,), (z1,) = [x[:1] for x in self.quant(ins[0])]
+        (s2,), (z2,) = [x[:1] for x in self.quant(ins[1])]
+        (so,), (zo,) = [x[:1] for x in self.quant(out_idx)]
+        va, vb = [val[i] if i in val else self.const(i) for i in ins[:2]]
+        if va is None or vb is None:
+            raise Unsupported("elementwise operand without a value")
+        va, vb = np.asarray(va).astype(np.int64), np.asarray(vb).astype(np.int64)
+        a = np.broadcast_to(va, np.broadcast_shapes(va.shape, vb.shape))
+        b = np.broadcast_to(vb, a.shape)
+        if k in ("MINIMUM", "MAXIMUM"):
+            if (s1, z1) != (s2, z2) or (s1, z1) != (so, zo):
+                raise Unsupported("min/max with differing quantisation")
+            return np.minimum(a, b) if k == "MINIMUM" else np.maximum(a, b)
+        lo, hi = act_range(o.get("FusedActivationFunction", 0), ty, so, zo)
+        s1, s2, so = np.float32(s1), np.float32(s2), np.float32(so)
+        fa, fb = (a - int(z1)).reshape(-1), (b - int(z2)).reshape(-1)
+        if k == "MUL":
+            q, sh = quantize_multiplier(float(s1) * float(s2) / float(so))
+            res = [min(hi, max(lo, mbqm(int(x) * int(y), q, sh) + int(zo))) for x, y in zip(fa, fb)]
+            return np.array(res, dtype=np.int64).reshape(a.shape)
+        left = 20
+        twice_max = float(np.float32(2) * max(s1, s2))
+        q1, sh1 = quantize_multiplier(float(s1) / twice_max)
+        q2, sh2 = quantize_multiplier(float(s2) / twice_max)
+        qo, sho = quantize_multiplier(twice_max / float(np.float32(1 << left) * so))
+        if sh1 > 0 or sh2 > 0 or sho > 0:
+            raise Unsupported("add/sub multiplier not smaller than one (the reference kernel aborts)")
+        res = []
+        for x, y in zip(fa, fb):
+            sx = mbqm(int(x) * (1 << left), q1, sh1)
+            sy = mbqm(int(y) * (1 << left), q2, sh2)
+            raw = sx + sy if k == "ADD" else sx - sy
+            res.append(min(hi, max(lo, mbqm(raw, qo, sho) + int(zo))))
+        return np.array(res, dtype=np.int64).reshape(a.shape)
 
     def _requant(self, acc, ins0, w_idx, out_idx, act, oc):
         sci, zpi = self.quant(ins0)
